@@ -32,7 +32,7 @@ tvars == <<l, sc, cs, dl, f, why, st>>
 
 AllTrue == [c10 |-> TRUE, c11 |-> TRUE, c12 |-> TRUE, c13 |-> TRUE, c20 |-> TRUE]
 NoSc == [entry |-> "none"]
-St0 == [tracks |-> FALSE, waited |-> FALSE, nreq |-> 0, faults |-> {}, stall |-> FALSE, forced |-> FALSE, decerr |-> 0, mutSeen |-> FALSE]
+St0 == [tracks |-> FALSE, waited |-> FALSE, nreq |-> 0, faults |-> {}, stall |-> FALSE, forced |-> FALSE, pacing |-> FALSE, decerr |-> 0, mutSeen |-> FALSE]
 
 TraceInit == l = 1 /\ sc = NoSc /\ cs = <<>> /\ dl = <<>> /\ f = AllTrue /\ why = "" /\ st = St0 /\ TLCSet(2, 0)
 
@@ -163,7 +163,7 @@ TraceData ==
 
 TraceMisc ==
   /\ l <= Len(Trace) /\ Trace[l].ev \in {"decerr", "forcedclose"}
-  /\ st' = IF Trace[l].ev = "forcedclose" THEN [st EXCEPT !.forced = TRUE] ELSE [st EXCEPT !.decerr = st.decerr + 1]
+  /\ st' = IF Trace[l].ev = "forcedclose" THEN [st EXCEPT !.forced = TRUE, !.pacing = Trace[l].pacing = 1] ELSE [st EXCEPT !.decerr = st.decerr + 1]
   /\ UNCHANGED <<sc, cs, dl, f, why>>
   /\ l' = l + 1
 
@@ -186,7 +186,8 @@ TraceWait ==
                 <<"c12", "C12_NoCallbackAfterwards", e.cbAfter = 0>>,
                 <<"c12", "C12_NotWedged", st.forced => (expectedStall \/ sc.mut # "")>>,
                 <<"c12", "C12_ErrorSurfaced", (sc.mut = "" /\ ~closed /\ ~st.forced /\ e.got = 1) => e.err \in allowed>>,
-                <<"c13", "C13_NotWedged", (sc.mut # "") => (~st.forced /\ e.got = 1)>>,
+                \* still running at the end of the budget is acceptable only while a sample is being paced (<= 10 s by design)
+                <<"c13", "C13_NotWedged", (sc.mut # "") => ((st.forced => st.pacing) /\ e.got = 1)>>,
                 <<"c13", "C13_HonoursClose", (sc.mut # "") => (e.got = 1 /\ e.alive = 0 /\ e.extra = 0)>>,
                 <<"c11", "C11_Outcome", (Plain /\ e.got = 1) => e.err \in allowed>>,
                 <<"c11", "C11_EOSOnlyAfterLast", (sc.mut = "" /\ e.err = "eos") => AllEnded>>,
